@@ -42,10 +42,12 @@ from __future__ import annotations
 
 import io
 import itertools
+import os
 import re
 import warnings
 
 import urllib3
+import urllib3.filepost
 from urllib3.connection import HTTPConnection
 from urllib3.connectionpool import HTTPConnectionPool
 from urllib3.http2.connection import HTTP2Connection
@@ -55,6 +57,22 @@ from urllib3.util import SKIP_HEADER
 from mc.common import Acc, HarnessError, digest
 from mc.simnet import Net, Server, SimStall
 
+
+
+class _DeterministicOS:
+    """stands in for `os` inside urllib3.filepost: the multipart boundary's randomness is
+    owned by the harness (DESIGN 2.1), everything else is the real module"""
+
+    def __getattr__(self, name):
+        return getattr(os, name)
+
+    @staticmethod
+    def urandom(n):
+        return bytes((7 * i + 3) & 0xFF for i in range(n))
+
+
+urllib3.filepost.os = _DeterministicOS()
+
 HOST = "a.test"
 BASE = "http://" + HOST
 UA_LINE = b"User-Agent: python-urllib3/" + urllib3.__version__.encode("ascii")
@@ -62,10 +80,12 @@ AE_LINE = b"Accept-Encoding: identity"
 AUTO = ("host", "accept-encoding", "user-agent")
 
 # ------------------------------------------------------------------ hostile strings
-# ordered simplest first, so that the first counterexample is also the shortest
-ALPHA = ["a", ":", " ", "\t", "\r", "\n", "\x00", "\x7f", "%", "\xe9", "\u010a", "\u2028"]
+# ordered simplest first, so that the first counterexample is also the shortest. The design's
+# twelve symbols plus '"': printable ASCII that is neither a token character nor legal in a
+# URL, yet passes http.client's own control-character checks (only urllib3 stands in its way)
+ALPHA = ["a", ":", " ", "\t", "\r", "\n", "\x00", "\x7f", "%", "\xe9", "\u010a", "\u2028", '"']
 SYM = {"a": "plain", ":": "colon", " ": "SP", "\t": "HTAB", "\r": "CR", "\n": "LF", "\x00": "NUL",
-       "\x7f": "DEL", "%": "pct", "\xe9": "latin1", "\u010a": "U+010A", "\u2028": "U+2028"}
+       "\x7f": "DEL", "%": "pct", "\xe9": "latin1", "\u010a": "U+010A", "\u2028": "U+2028", '"': "DQUOTE"}
 SMUGGLE = "\r\nGET /x HTTP/1.1\r\nHost: evil\r\n\r\n"
 TEMPL = ["\r\n", "\n", "\r", "\r\n ", "\n\t", "\r ", "%0d%0a", SMUGGLE, "\r\n" + SMUGGLE, "\r\nX-Inj: 1", "\nX-Inj: 1",
          "\rX-Inj: 1", " HTTP/1.1\r\nX-Inj: 1\r\n\r\nGET /y", "\x00", "\x7f", "\u20ac", "\u010a", "\u2028"]
@@ -213,21 +233,18 @@ def fam_value(cfg):
                 yield lambda: mk(entry, "value-auto", hs=v, headers=[("X-Pre", "1"), (nm, v + SKIP_HEADER), ("X-Post", "2")])
 
 
-def in_bounds(bounds, la, lb):
-    return any(la <= a and lb <= b for a, b in bounds)
-
-
 def fam_pair(cfg):
     """(name, value) with (len(name), len(value)) inside the union of the rectangles in
-    pair_bounds; an empty partner is covered by the single-field families"""
-    bounds = cfg["pair_bounds"]
-    names = upto(max(a for a, _ in bounds))[1:]
-    vals = upto(max(b for _, b in bounds))[1:]
+    pair_bounds[entry]; an empty partner is covered by the single-field families. The pools
+    hand the mapping to HTTPConnection.request unchanged, so the widest bounds go to `conn`."""
     for entry in ("conn", "pool_rel", "pm"):
+        bounds = cfg["pair_bounds"][entry]
+        names = upto(max(a for a, _ in bounds))[1:]
+        vals_upto = {n: upto(n)[1:] for n in range(0, max(b for _, b in bounds) + 1)}
         for nm in names:
-            for v in vals:
-                if in_bounds(bounds, len(nm), len(v)):
-                    yield lambda: mk(entry, "pair", hs=nm + v, headers=[("X-Pre", "1"), (nm, v), ("X-Post", "2")])
+            # the union of rectangles is a staircase: the longest value allowed for this name length
+            for v in vals_upto[max(b for a, b in bounds if len(nm) <= a)]:
+                yield lambda: mk(entry, "pair", hs=nm + v, headers=[("X-Pre", "1"), (nm, v), ("X-Post", "2")])
 
 
 def fam_auto(cfg):
@@ -302,12 +319,12 @@ def h2_strings(n):
 def fam_h2(cfg):
     """(kind, name, values), evaluated without a socket"""
     bounds = cfg["h2_bounds"]
-    names = [x for x in h2_strings(max(a for a, _ in bounds))]
-    vals = [x for x in h2_strings(max(b for _, b in bounds))]
+    names = h2_strings(max(a for a, _ in bounds))
+    allv = h2_strings(max(b for _, b in bounds))
+    vals_upto = {n: [v for v, cv in allv if cv <= n] for n in range(0, max(b for _, b in bounds) + 1)}
     for nm, cn in names:
-        for v, cv in vals:
-            if in_bounds(bounds, cn, cv):
-                yield lambda: {"entry": "h2", "fam": "h2", "name": nm, "values": [v], "hs": nm + v}
+        for v in vals_upto[max(b for a, b in bounds if cn <= a)]:
+            yield lambda: {"entry": "h2", "fam": "h2", "name": nm, "values": [v], "hs": nm + v}
     for nm, _ in h2_strings(cfg["h2_single"]):
         b = nm.encode("utf-8")
         yield lambda: {"entry": "h2", "fam": "h2-bytes", "name": b, "values": [b"v"], "hs": nm}
@@ -330,9 +347,11 @@ FAMILIES = {"method": fam_method, "url": fam_url, "name": fam_name, "value": fam
 
 def config(thorough):
     if thorough:
-        return {"n_field": 4, "n_skip": 3, "pair_bounds": [(2, 2), (3, 1), (1, 3), (3, 2), (2, 3)],
+        small = [(2, 2), (3, 1), (1, 3)]
+        return {"n_field": 4, "n_skip": 3, "pair_bounds": {"conn": [(3, 2), (2, 3)], "pool_rel": small, "pm": small},
                 "h2_bounds": [(2, 2), (3, 1), (1, 3)], "h2_single": 3}
-    return {"n_field": 3, "n_skip": 2, "pair_bounds": [(2, 2)], "h2_bounds": [(2, 1), (1, 2)], "h2_single": 2}
+    return {"n_field": 3, "n_skip": 2, "pair_bounds": {"conn": [(2, 2), (3, 1), (1, 3)], "pool_rel": [(2, 2)], "pm": [(2, 2)]},
+            "h2_bounds": [(2, 1), (1, 2)], "h2_single": 2}
 
 
 # ------------------------------------------------------------------ execution on the real code
@@ -418,6 +437,8 @@ def execute(case):
                 status = resp.status
         except SimStall as e:
             stall = str(e)
+        except HarnessError:
+            raise
         except Exception as e:  # noqa: BLE001 - every exception class is a legitimate rejection
             raised = e
         # history extension: after a rejected call the same pool must still emit exactly the
@@ -570,7 +591,7 @@ def pct_decode(b, plus=False):
     i = 0
     while i < len(b):
         c = b[i]
-        if c == 0x25 and i + 2 < len(b) + 0 and len(b) >= i + 3 and b[i + 1] in HEXD and b[i + 2] in HEXD:
+        if c == 0x25 and len(b) >= i + 3 and b[i + 1] in HEXD and b[i + 2] in HEXD:
             out.append(int(b[i + 1:i + 3], 16))
             i += 3
             continue
@@ -582,11 +603,15 @@ def pct_decode(b, plus=False):
 def want_octets(component):
     """acceptable meanings (octet strings) of a requested URL component. All '%' valid
     triplets: the decoded octets. A stray '%' anywhere: EITHER the component taken literally
-    (what urllib3 does: every '%' becomes %25) OR decoded leniently."""
+    (what urllib3 does: every '%' becomes %25) OR decoded leniently (not-a-finding by design)."""
     u8 = component.encode("utf-8", "surrogatepass")
     if pct_valid(u8):
         return {pct_decode(u8)}, False
-    return {u8, pct_decode(u8)}, True
+    # third reading inside the same either-region: literal, but with the hex digits of the
+    # well-formed triplets upper-cased first ("%aa%" -> %25AA%25); no structure is involved,
+    # exactness of such components is C15's subject
+    cased = re.sub(rb"%[0-9a-fA-F]{2}", lambda m: m.group(0).upper(), u8)
+    return {u8, pct_decode(u8), cased}, True
 
 
 _URL_RE = re.compile(r"^(?:([^:/?#]+):)?(?://([^/?#]*))?([^?#]*)(?:\?([^#]*))?(?:#(.*))?$", re.S)  # RFC 3986 appendix B
@@ -1054,6 +1079,8 @@ def record(acc, case, v):
             acc.counters["sym:%s:%s" % (SYM[ch], res)] += 1
     if case["fam"] == "url" and res == "accepted" and SMUGGLE in hs:
         acc.counters["smuggle-template-accepted-and-neutralised"] += 1
+    if v.viol:
+        acc.counters["violating:%s:%s" % (case["entry"], case["fam"])] += 1
     for clause, extra, observed, expected in v.viol:
         sig = sig_of(case, clause, extra)
         acc.counters["violations:" + clause] += 1
@@ -1103,9 +1130,13 @@ def run(ctx):
     total = sum(sizes.values())
     c = acc.counters
     syms_ok = all(c["sym:%s:accepted" % s] + c["sym:%s:rejected" % s] > 0 for s in SYM.values())
-    h1_fams = [("conn", "method"), ("pool_rel", "method"), ("pm", "method"), ("conn", "url"), ("pool_rel", "url"), ("pool_abs", "url"),
-               ("pm", "url"), ("conn", "name"), ("pool_rel", "name"), ("pm", "name"), ("conn", "value"), ("pool_rel", "value"),
-               ("pm", "value"), ("conn", "pair"), ("pm", "pair"), ("pm", "boundary"), ("h2", "h2")]
+    # families in which the statement forces BOTH outcomes to exist (a CR/LF in a method, a
+    # header or an identity target cannot be encoded away, a plain string must be accepted) ...
+    both = [("conn", "method"), ("pool_rel", "method"), ("pm", "method"), ("conn", "url"),
+            ("conn", "name"), ("pool_rel", "name"), ("pm", "name"), ("conn", "value"), ("pool_rel", "value"),
+            ("pm", "value"), ("conn", "pair"), ("pool_rel", "pair"), ("pm", "pair"), ("pm", "boundary"), ("h2", "h2")]
+    # ... and families where everything may legitimately be accepted (percent-encoding)
+    accept_only = [("pool_rel", "url"), ("pool_abs", "url"), ("pm", "url")]
     vac = [(acc.n == total, "evaluated %d of %d enumerated cases" % (acc.n, total)),
            (syms_ok, "an alphabet symbol was never used"),
            (len(acc.outcomes) >= 20, "too few outcome classes: %d" % len(acc.outcomes)),
@@ -1115,9 +1146,12 @@ def run(ctx):
            (c["pm:auto:accepted"] >= 81 and c["conn:auto:accepted"] >= 81, "automatic-header combinations not all accepted"),
            (c["conn:body:accepted"] > 50 and c["pm:body:accepted"] > 50, "body kinds not exercised"),
            (c["pm:fields-key:accepted"] > 100 and c["pm:fields-value:accepted"] > 100, "fields= not exercised")]
-    for e, f in h1_fams:
-        vac.append((c["%s:%s:accepted" % (e, f)] > 0 and c["%s:%s:rejected" % (e, f)] > 0,
+    for e, f in both:
+        # a family that lost all its rejections AND shows violations is a finding, not a broken check
+        vac.append((c["%s:%s:accepted" % (e, f)] > 0 and (c["%s:%s:rejected" % (e, f)] > 0 or c["violating:%s:%s" % (e, f)] > 0),
                     "family %s/%s did not show both acceptance and rejection" % (e, f)))
+    for e, f in accept_only:
+        vac.append((c["%s:%s:accepted" % (e, f)] > 0, "family %s/%s never accepted" % (e, f)))
     if not ctx.thorough:
         vac.append((len(acc.distinct) == total, "enumeration produced duplicate cases: %d distinct of %d" % (len(acc.distinct), total)))
     cov = {
